@@ -281,6 +281,14 @@ T_BAD = [["xor", "0"], ["xor"], ["xor", "2", "3"], ["xor", "x"], ["lift", "0"], 
          ["ite", "2"], [], ["atmost", "2", "-1"], ["eq", "1.5"], ["one", ""], ["anybut", "2"], ["neq", "-1"]]
 
 
+# always run: the only ValueError a transformation can raise behind the validators (left side of the compression graph
+# != number of variables), a chunk without a transformation, a refused graph argument inside a chunk, `-T none`
+CHAIN_CORPUS = [["php", "2", "1", "-T", "xorcomp", "complete", "3", "2"], ["php", "2", "1", "-T", "majcomp", "complete", "3", "2", "-T", "flip"],
+                ["php", "2", "1", "-T", "xorcomp", "complete", "2", "2"], ["parity", "3", "-T", "xorcomp", "shift", "4", "3", "1"],
+                ["php", "2", "1", "-T"], ["php", "2", "1", "-T", "xorcomp", "foo"], ["php", "2", "1", "-T", "none", "-T", "xor", "2"],
+                ["php", "2", "1", "-T", "flip", "-T", "xorcomp", "empty", "3", "2"], ["php", "2", "1", "-T", "xorcomp"]]
+
+
 def chain_lines(rng, tier):
     out = []
     for b in BASES:
@@ -394,7 +402,7 @@ def cases(ctx):
             cl.append(line)
     answers = common.run_driver([line_req(l) for l in cl])
     cl = [l for l, ans in zip(cl, answers) if ans != "UNSUPPORTED" and len(ans) < 200000]
-    cl = rng.sample(cl, min(len(cl), 70 if tier == "quick" else 1500))
+    cl = [l for l in CHAIN_CORPUS] + rng.sample(cl, min(len(cl), 62 if tier == "quick" else 1500))
     for l in cl:
         out.append(build("o_chain", {"line": l}))
     for c in out:
